@@ -98,3 +98,25 @@ def classes(nodes, labels):
 def cpairs(ps):
     from harness.common import clist, cz
     return clist(ps, lambda p: f"({cz(p[0])}, {cz(p[1])})")
+
+
+LABEL_POOL = [-1, 0, 1, -2, 2**31, -2**31 - 1, 2**63 - 1, -2**63, 99, 98, 10, 3, 255, 256]
+NODE_POOL = [0, 1, 2, 255, 256, 2**32, 2**53 + 1, 2**63 - 1, 2**63, 2**64 - 1, 97, 1000]
+
+
+def respell(rng, c, p=0.4):
+    """Rename labels (int64) and/or node ids (uint64, including ids that occur in edges only) injectively into values a validator might
+    treat specially: -1, 0, dtype limits, ids equal to labels.  The graph and the partition are the same up to renaming."""
+    c = dict(c)
+    if rng.random() < p:
+        labs = sorted(set(c["labels"]))
+        new = rng.sample(LABEL_POOL, len(labs)) if len(labs) <= len(LABEL_POOL) else labs
+        m = dict(zip(labs, new))
+        c["labels"] = [m[l] for l in c["labels"]]
+    if rng.random() < p / 2:
+        ids = sorted(set(c["nodes"]) | {x for e in c["edges"] for x in e})
+        if len(ids) <= len(NODE_POOL):
+            m = dict(zip(ids, rng.sample(NODE_POOL, len(ids))))
+            c["nodes"] = [m[x] for x in c["nodes"]]
+            c["edges"] = [[m[a], m[b]] for a, b in c["edges"]]
+    return c
